@@ -7,6 +7,8 @@ Extraction Language OCaml.
 
 Definition tp_run := TransportParams.run.
 Definition tp_judge := Rfc18_2.judge.
+Definition sess_run := TransportParams.sess_run.
+Definition sess_judge := Rfc18_2.judge_sess.
 Definition tp_class_run := TpClass.run.
 Definition tp_class_judge := TpClass.judge.
-Extraction "../ocaml/gen/C14/model.ml" tp_run tp_judge tp_class_run tp_class_judge.
+Extraction "../ocaml/gen/C14/model.ml" tp_run tp_judge sess_run sess_judge tp_class_run tp_class_judge.
